@@ -3,6 +3,7 @@ package protos
 import (
 	"fmt"
 	"reflect"
+	"unsafe"
 
 	"github.com/cronokirby/saferith"
 	"github.com/taurusgroup/multi-party-sig/internal/round"
@@ -186,4 +187,29 @@ func TamperPreSignature(p *ecdsa.PreSignature, what string) (*ecdsa.PreSignature
 		return nil, fmt.Errorf("unknown tampering %q", what)
 	}
 	return &b, nil
+}
+
+// FrostDealerCheat makes `cheater` deal a polynomial whose degree differs from the agreed threshold by delta, with
+// shares that are consistent with it (its round-1 state is altered before anything is sent), in a key generation
+// or refresh session built by FrostKeygen / FrostRefresh.
+func FrostDealerCheat(s *Session, cheater party.ID, delta int, sid []byte, mk func() protocol.StartFunc) {
+	s.Makers[cheater] = multi(func() protocol.StartFunc {
+		inner := mk()
+		return func(sessionID []byte) (round.Session, error) {
+			r, err := inner(sessionID)
+			if err != nil {
+				return nil, err
+			}
+			f := field(r, "threshold")
+			if !f.IsValid() {
+				return nil, fmt.Errorf("no threshold field in %T", r)
+			}
+			f = reflect.NewAt(f.Type(), unsafe.Pointer(f.UnsafeAddr())).Elem()
+			if f.Int()+int64(delta) < 0 {
+				return nil, fmt.Errorf("degree would be negative")
+			}
+			f.SetInt(f.Int() + int64(delta))
+			return r, nil
+		}
+	}, sid)
 }
